@@ -191,6 +191,43 @@ theorem writeMsg_blocks (H : FHash → Hdr → Hdr) (s : St) (prev : Hdr) (stop 
   · rw [heq]
 
 
+/-- the detection loop only removes entries from the header map -/
+theorem idxLoop_subset (net : Net) (start : Nat) : ∀ (is : List Nat) (s : St) (hs : List (Peer × Msg)),
+    ∀ s2 hs2, idxLoop net start is s hs = (s2, .ok hs2) → ∀ pm ∈ hs2, pm ∈ hs := by
+  intro is
+  induction is with
+  | nil =>
+    intro s hs s2 hs2 h pm hpm
+    simp only [idxLoop, Prod.mk.injEq, Except.ok.injEq] at h
+    rw [h.2]; exact hpm
+  | cons i is ih =>
+    intro s hs s2 hs2 h pm hpm
+    unfold idxLoop at h
+    by_cases hm : mismatch hs i = true
+    · simp only [hm, ↓reduceIte] at h
+      cases hd : detect net s hs (start + i) i with
+      | error e => rw [hd] at h; simp at h
+      | ok bad =>
+        rw [hd] at h
+        have := ih _ _ s2 hs2 h pm hpm
+        unfold dropPeers at this
+        exact (List.mem_filter.mp this).1
+    · simp only [hm, Bool.false_eq_true, ↓reduceIte] at h
+      exact ih _ _ s2 hs2 h pm hpm
+
+/-- the response filter of `getCFHeadersForAllPeers`: what is kept has the
+requested stop hash and exactly the requested number of filter hashes -/
+theorem gather_exact (s : St) (net : Net) (n : Nat) : ∀ pm ∈ gather s net n,
+    pm.2.stopOk = true ∧ pm.2.hashes.length = n := by
+  intro pm hpm
+  unfold gather at hpm
+  simp only [List.mem_filterMap, Option.map_eq_some_iff] at hpm
+  obtain ⟨p, _, m, hm, rfl⟩ := hpm
+  unfold accept at hm
+  have := List.find?_some hm
+  simp only [Bool.and_eq_true, beq_iff_eq] at this
+  exact this
+
 theorem inv_of_eq (H : FHash → Hdr → Hdr) (s s' : St) (h1 : s'.fstore = s.fstore) (h2 : s'.fblk = s.fblk)
     (h3 : s'.blocks = s.blocks) (hi : Inv H s) : Inv H s' :=
   ⟨by rw [h1, h2]; exact hi.len, by rw [h2, h3]; exact hi.pre, by rw [h1]; exact hi.ne,
@@ -374,6 +411,40 @@ theorem tipRound_shape (H : FHash → Hdr → Hdr) (s : St) (net : Net) :
           cases e with
           | error e => exact ⟨s2, hf.1, hf.2.1, hf.2.2, Or.inl rfl⟩
           | ok hs2 => exact ⟨s2, hf.1, hf.2.1, hf.2.2, Or.inr ⟨hs2, rfl⟩⟩
+
+/-- `tipRound_shape` with the origin of the surviving header map: its entries
+are responses kept by the response filter of `getCFHeadersForAllPeers` -/
+theorem tipRound_shape' (H : FHash → Hdr → Hdr) (s : St) (net : Net) :
+    ∃ s2 : St, s2.fstore = s.fstore ∧
+      ((tipRound H s net).1 = s2 ∨
+       ∃ hs2, (∀ pm ∈ hs2, pm ∈ gather s net (batchLen s)) ∧
+         (tipRound H s net).1 = (commitPick H s2 net.pick hs2).1) := by
+  unfold tipRound
+  cases s.fstore.getLast? with
+  | none => exact ⟨s, rfl, Or.inl rfl⟩
+  | some tip =>
+    by_cases h1 : s.blocks.length - 1 < s.fstore.length - 1
+    · simp only [h1, ↓reduceIte]; exact ⟨s, rfl, Or.inl rfl⟩
+    · simp only [h1, ↓reduceIte]
+      by_cases h2 : s.blocks.length - 1 = s.fstore.length - 1
+      · simp only [h2, ↓reduceIte]; exact ⟨s, rfl, Or.inl rfl⟩
+      · simp only [h2, ↓reduceIte]
+        generalize hw : (List.filter (fun pm => pm.2.prev != tip) (gather s net (batchLen s))).map (·.1) = wrong
+        generalize hh : List.filter (fun pm => pm.2.prev == tip) (gather s net (batchLen s)) = hs1
+        by_cases h3 : hs1.isEmpty = true
+        · simp only [h3, ↓reduceIte]; exact ⟨ban s wrong reasonHeader, rfl, Or.inl rfl⟩
+        · simp only [h3, Bool.false_eq_true, ↓reduceIte]
+          have hf := idxLoop_frame net s.fstore.length (List.range (batchLen s)) (ban s wrong reasonHeader) hs1
+          generalize hr : idxLoop net s.fstore.length (List.range (batchLen s)) (ban s wrong reasonHeader) hs1 = r at hf
+          obtain ⟨s2, e⟩ := r
+          cases e with
+          | error e => exact ⟨s2, hf.1, Or.inl rfl⟩
+          | ok hs2 =>
+            refine ⟨s2, hf.1, Or.inr ⟨hs2, ?_, rfl⟩⟩
+            intro pm hpm
+            have := idxLoop_subset net _ _ _ _ s2 hs2 hr pm hpm
+            rw [← hh] at this
+            exact (List.mem_filter.mp this).1
 
 theorem inv_tipRound (H : FHash → Hdr → Hdr) (s : St) (net : Net) (hi : Inv H s) :
     Inv H (tipRound H s net).1 := by
